@@ -19,6 +19,7 @@ import (
 
 	"github.com/containerd/nri/pkg/adaptation"
 	"github.com/containerd/nri/pkg/api"
+	"github.com/containerd/nri/pkg/stub"
 	"github.com/containerd/nri/pkg/vhook"
 	"github.com/containerd/ttrpc"
 
@@ -56,7 +57,13 @@ func RunChild(scn int, sc Scenario, out string) error {
 	}
 	defer f.Close()
 	var mu sync.Mutex
+	again := false // second session of the same stub: events are prefixed
 	ev := func(name string, kv ...any) {
+		mu.Lock()
+		if again && name != "End" && name != "again.handler" {
+			name = "again." + name
+		}
+		mu.Unlock()
 		e := rec.Event{"ev": name, "scn": scn}
 		for i := 0; i+1 < len(kv); i += 2 {
 			e[kv[i].(string)] = kv[i+1]
@@ -151,15 +158,27 @@ func RunChild(scn int, sc Scenario, out string) error {
 					intact = false
 				}
 			}
-			ev("handler", "pods", gp, "ctrs", gc, "intact", intact)
+			mu.Lock()
+			second := again
+			mu.Unlock()
+			if second {
+				ev("again.handler", "pods", gp, "ctrs", gc)
+			} else {
+				ev("handler", "pods", gp, "ctrs", gc, "intact", intact)
+			}
 			return []*api.ContainerUpdate{{ContainerId: "su-1"}, {ContainerId: "su-2"}}, nil
 		},
 	}
+	// the stub is created here (not by the rig) so that it can be started again after a failed first session
+	plug := &rig.Plugin{Name: "syncp", Idx: "10", H: h}
+	st, err := stub.New(plug, stub.WithPluginName("syncp"), stub.WithPluginIdx("10"), stub.WithSocketPath(r.Socket),
+		stub.WithOnClose(func() {}))
+	if err != nil {
+		return err
+	}
+	plug.Stub = st
 	startErr := make(chan error, 1)
-	go func() {
-		_, err := r.AddPluginMask("syncp", "10", 0, 0, h)
-		startErr <- err
-	}()
+	go func() { startErr <- st.Start(context.Background()) }()
 	hung := false
 	select {
 	case <-finished:
@@ -174,6 +193,36 @@ func RunChild(scn int, sc Scenario, out string) error {
 		}
 	case <-time.After(3 * time.Second):
 		se = "stub start did not return"
+	}
+	if !hung {
+		// a second session of the same stub with another, small state: nothing of the first session may be left
+		st.Stop()
+		mu.Lock()
+		again = true
+		mu.Unlock()
+		pods = []*api.PodSandbox{{Id: "again-pod0", Name: "p"}, {Id: "again-pod1", Name: "p"}}
+		ctrs = []*api.Container{{Id: "again-ctr0", Name: "c"}, {Id: "again-ctr1", Name: "c"}, {Id: "again-ctr2", Name: "c"}}
+		for len(finished) > 0 {
+			<-finished
+		}
+		go func() { startErr <- st.Start(context.Background()) }()
+		h2 := false
+		select {
+		case <-finished:
+		case <-time.After(20 * time.Second):
+			h2 = true
+		}
+		s2 := ""
+		select {
+		case e := <-startErr:
+			if e != nil {
+				s2 = e.Error()
+			}
+		case <-time.After(3 * time.Second):
+			s2 = "stub start did not return"
+		}
+		ev("again.end", "hung", h2, "text", s2)
+		st.Stop()
 	}
 	ev("End", "crashed", false, "hung", hung, "text", se)
 	return nil
